@@ -157,7 +157,7 @@ def arrays_equal(rl, fsx, got, want):
     return bool(np.array_equal(got, want))
 
 
-def history_events(chk, cx, fsx, reqs, eid0, dask_every=4):
+def history_events(chk, cx, fsx, reqs, eid0, dask_every=5):
     """Sequential history on one (shared) reader object -> events."""
     import numpy as np
     import dask.array as da
@@ -203,7 +203,7 @@ def history_events(chk, cx, fsx, reqs, eid0, dask_every=4):
         eager = np.array(out[1].data, copy=True) if out[0] == "ok" else None      # before anything modifies the result
         if out[0] == "ok" and not inb:
             continue
-        if out[0] == "ok" and n > 0 and j % 4 == 0:
+        if out[0] == "ok" and n > 0 and j % 5 == 0:
             evs += mutation_steps(cx, fsx, r, o, n, out, j, eid0 + len(evs))
         if out[0] != "ok" and (j % dask_every == 1 % dask_every or (n == 0 and o >= fsx.outlen)):
             # a request the eager read refuses: the Dask read is the same request and must be refused when it
@@ -411,7 +411,9 @@ def derived_event(cx, fsx, eid):
             "t1": rl.exact.rat(rl.seconds_between(r.time_at(1), r.start_time)),
             "t1rel": rl.exact.rat(Fraction(float(r.time_at(1, unit=u.s).value))),
             "read1": rl.exact.rat(rl.seconds_between(r.read(1, 0).start_time, r.start_time)),
-            "rate_read": rl.exact.rat(rl.hz(r.read(0, 1).sample_rate))}
+            "rate_read": rl.exact.rat(rl.hz(r.read(0, 1).sample_rate)),
+            # discrete facts recorded when the reader was built (argument objects the caller went on using)
+            "flags": dict(getattr(r, "_verif_flags", {}), recorded=True)}
 
 
 def free_running(chk, cx, sets, nthreads, nreads, eid0):
@@ -570,7 +572,7 @@ def forced_on_samples(chk, cx, scheds, sets, rnd):
         b = fb * fsx.fpf if fsx.nfiles > 1 else (fb if fb < L else L // 2)
         pairs = [[(b - mx // 2, mx), (b, mx)], [(b - 1, mx), (b - 1, mx)], [(0, mx), (L - mx, mx)]]
         for i, procs in enumerate(scheds if (chk.tier == "thorough" or fsx.key == "s_dada") else
-                                  rnd.sample(scheds, min(len(scheds), 16))):
+                                  rnd.sample(scheds, min(len(scheds), 10))):
             nread = max(procs)
             args = pairs[i % len(pairs)][:nread] if nread <= 2 else [(b - 2, min(mx, 3)), (b - 1, min(mx, 3)), (b, min(mx, 3))]
             if cx.step_failures.get(fsx.key, 0) >= 2:
@@ -644,13 +646,13 @@ def _run(chk, rl, tmp, pool):
     # (2) sequential histories (+ Dask reads, adjacency, repeats)
     for fsx in allsets:
         small = fsx.key in cx.samples
-        lim = (400 if th else 40) if not small else (150 if th else 16)
+        lim = (400 if th else 32) if not small else (150 if th else 14)
         if fsx.key == "s_stokes":
             lim = 30 if th else 5
-        if fsx.assigned:
+        if fsx.assigned or fsx.light:
             lim = lim // 3
-        reqs = requests(fsx, rnd, nrand=((60 if th else 12) if fsx.key != "s_stokes" else 2) // (3 if fsx.assigned else 1), limit=lim,
-                        maxn=cx.maxn.get(fsx.key, 8), ntypes=5 if th else (1 if fsx.assigned else 2))
+        reqs = requests(fsx, rnd, nrand=((60 if th else 12) if fsx.key != "s_stokes" else 2) // (3 if (fsx.assigned or fsx.light) else 1), limit=lim,
+                        maxn=cx.maxn.get(fsx.key, 8), ntypes=5 if th else (1 if (fsx.assigned or fsx.light) else 2))
         events += history_events(chk, cx, fsx, reqs, len(events))
     lap("histories")
     # (3) large reads (whole frames / files): bitwise against the direct baseband read and the written content
@@ -665,7 +667,7 @@ def _run(chk, rl, tmp, pool):
             fb = fsx.spf // (2 if fsx.real else 1)
             ks = sorted(set([-1, 0, 1, 2, fb - 1, fb, fb + 1, fb * fsx.fpf, L // 2, L - 2, L - 1, L, L + 1]
                             + [rnd.randrange(0, L + 1) for _ in range(2500 if th else 24)]))
-        if fsx.assigned and not th:
+        if (fsx.assigned or fsx.light) and not th:
             ks = [k for i, k in enumerate(ks) if i % 3 == 0 or k in (-1, 0, L, L + 1)]
         ev = offset_events(chk, cx, fsx, ks, len(events), pert_every=3 if th else 9,
                            scale_every=1 if (th or fsx.key.startswith("dadaleap")) else 6)
@@ -687,7 +689,7 @@ def _run(chk, rl, tmp, pool):
     # (5) free-running concurrency on shared reader objects
     pool_sets = [cx.written[k] for k in ("vdifc", "vdifc_lsb", "vdifr", "vdifr_lsb", "dada", "guppi", "guppil", "stokesl",
                                          "stokeslong", "vdift")] + [cx.samples["s_dada"], cx.samples["s_guppi"]]
-    ev = free_running(chk, cx, pool_sets, 32, 200 if th else 28, len(events))
+    ev = free_running(chk, cx, pool_sets, 32, 200 if th else 24, len(events))
     cx.counts["pool"] = len(ev)
     events += ev
     submit(ev, "pool")
@@ -726,7 +728,7 @@ def _run(chk, rl, tmp, pool):
             g1, g2 = rnd.sample(groups, 2)       # all interleavings of one argument pair, 16 of another
             sel += g1 + rnd.sample(g2, 3)
         recs2 = sel
-        recs3 = rnd.sample(recs3, min(len(recs3), 60))
+        recs3 = rnd.sample(recs3, min(len(recs3), 40))
     else:
         recs3 = rnd.sample(recs3, min(len(recs3), 4000))
     lap("wait_tlc")
